@@ -397,6 +397,16 @@ pub fn states(tier: &str) -> Vec<State> {
         out.push(State { label: member_label(p, &types), depth: 1, set: s });
     }
     out.extend(component_states());
+    // a type and a global element of ONE name, referred to (ref= and base=) before and after their
+    // declarations, in every declaration order (C09's families; judged here for "exactly one struct
+    // per named type"): a component that is read ahead and then handed out by name alone is written
+    // twice or replaces its namesake
+    // (the element being an instance of the type: an element with an anonymous type next to a type of
+    // its name is F-C01-5, which C01 and C09 report)
+    for (mut s, _) in super::c09::two_referrer_states().into_iter().filter(|(s, _)| s.label.contains("of type Thing")).chain(super::c09::recursive_same_name_states()) {
+        s.label = format!("component same-name: {}", s.label);
+        out.push(s);
+    }
     if tier == "thorough" {
         let red = member_productions(&types, true);
         for a in &red {
